@@ -196,6 +196,21 @@ class FlattenBase(Contract):
             stack_p = extra[self.extra_vectors.index('stack')]
             eng.oblige(st, 'III', 'call-pre:recursion:stack-holds-the-entries-of-the-ancestors',
                        st.heap[stack_p.oid].len == depth, line)
+        fr = st.ghost.get('flatten_result')
+        if fr is not None and eng.inline_depth >= 0 and st.scope.lookup('i') is not None and isinstance(child, PyObj):
+            # custom node: the children are visited in the order the flatten function yielded them - from the tuple snapshot
+            # taken when it returned, not from an object user code can still change while the descent runs (C02)
+            as_tuple = lambda x: z3.If(M.py_is_tuple(x), x, z3.Function('py_convert_tuple', Ref, Ref)(x))
+            snap = as_tuple(M.py_item(as_tuple(fr), 0))
+            eng.oblige(st, 'III', 'custom-children-are-visited-in-the-order-of-the-snapshot-of-the-flatten-result',
+                       child.ref == M.py_item(snap, st.get('i')), line)
+        cl = st.ghost.get('classified')
+        if cl is not None and st.scope.lookup('i') is not None and st.scope.lookup('handle') is not None and isinstance(child, PyObj):
+            # sequences by position (C02): the i-th child visited is the i-th item of the object
+            h = st.get('handle')
+            positional = z3.Or(*[cl[0] == K[nm] for nm in ('Tuple', 'List', 'NamedTuple', 'StructSequence')])
+            eng.oblige(st, 'III', 'positional-children-are-visited-by-position',
+                       z3.Implies(positional, child.ref == M.py_item(h.ref if isinstance(h, PyObj) else h, st.get('i'))), line)
         eng.may_call_python(st, 'user callbacks during the flattening of a child (is_leaf, custom flatten, key methods)', line)
         s_exc = st.clone()
         eng.throw(s_exc, 'pybind11::error_already_set', line, 'RecursionError or an exception from a callback')
